@@ -27,6 +27,7 @@ func main() {
 	flag.IntVar(&opt.MaxAlloc, "maxalloc", 1<<16, "max make() length")
 	flag.StringVar(&opt.Tier, "tier", "quick", "quick|thorough")
 	flag.StringVar(&opt.SolverLog, "smtlog", "", "prefix for solver transcripts")
+	flag.BoolVar(&opt.EagerAssume, "eager", true, "check feasibility right after each assume")
 	pat := flag.String("run", ".", "regexp of harness names")
 	verif := flag.String("verif", "/verif", "verif directory")
 	seed := flag.Int64("seed", 0, "seed (sampling only)")
